@@ -287,6 +287,43 @@ pub fn gen_case(t: &mut Tape, all_threads: bool) -> Case {
             g.nodes.push(Node::Ignore { dir, lines });
         }
     }
+    // a directory-only rule (or its negation) aimed at a symlink: whether it applies depends on
+    // what the link resolves to when links are followed, and both walkers must agree on that
+    if want_ignore && t.chance(1, 2) {
+        let links: Vec<String> = g
+            .nodes
+            .iter()
+            .filter_map(|n| match n {
+                Node::Link { path, .. } if path.starts_with("@T/r") => Some(path.clone()),
+                _ => None,
+            })
+            .collect();
+        if !links.is_empty() {
+            let l = &links[t.below(links.len())];
+            let (parent, name) = l.rsplit_once('/').unwrap();
+            if !name.contains(['[', '*', '?', '\\', ' ', '!', '#']) {
+                let line = match t.below(3) {
+                    0 => format!("{name}/"),
+                    1 => format!("!{name}/"),
+                    _ => name.to_string(),
+                };
+                let dir = if t.bool() { parent.to_string() } else { "@T/r0".to_string() };
+                let mut done = false;
+                for n in g.nodes.iter_mut() {
+                    if let Node::Ignore { dir: d, lines } = n {
+                        if *d == dir {
+                            lines.push(line.clone());
+                            done = true;
+                            break;
+                        }
+                    }
+                }
+                if !done && g.used.insert(format!("{dir}/.ignore")) {
+                    g.nodes.push(Node::Ignore { dir, lines: vec![line] });
+                }
+            }
+        }
+    }
     // roots
     let mut roots = vec!["@T/r0".to_string()];
     let mut symlink_root = false;
